@@ -1,5 +1,6 @@
 (* C03 — soundness of the executable checker w.r.t. the property predicate. *)
 From Coq Require Import QArith Reals Qreals List Bool Lra.
+From Interval Require Import Tactic.
 Require Import IPV.C03.Spec.
 Import ListNotations.
 
@@ -94,6 +95,74 @@ Proof.
     + split; [intro Hp; to_R; lra | intros _; to_R; lra].
 Qed.
 
+
+(* ---- stored solid-solution state *)
+
+Lemma Q2R_tolFrac : Q2R qtolFrac = tolFrac.
+Proof. unfold Q2R, qtolFrac, tolFrac; simpl; lra. Qed.
+
+Lemma ln10_between : (Q2R ln10_lo < ln 10 < Q2R ln10_hi)%R.
+Proof. unfold Q2R, ln10_lo, ln10_hi. simpl. split; interval with (i_prec 90). Qed.
+
+Lemma Qabs_le_R : forall x t, Qabs_le x t = true -> (Rabs (Q2R x) <= Q2R t)%R.
+Proof.
+  intros x t H. unfold Qabs_le in H. apply andb_true_iff in H. destruct H as [H1 H2].
+  apply Qle_bool_R in H1. apply Qle_bool_R in H2. rewrite Q2R_opp in H2. apply Rabs_le. lra.
+Qed.
+
+(* |l*L - g| <= t at both ends of an interval for L  ==>  at every L inside (the expression is affine in L) *)
+Lemma affine_between : forall l g t lo hi L,
+    (lo <= L <= hi)%R -> (Rabs (l * lo - g) <= t)%R -> (Rabs (l * hi - g) <= t)%R -> (Rabs (l * L - g) <= t)%R.
+Proof.
+  intros l g t lo hi L [HL1 HL2] H1 H2.
+  assert (H1' : (- t <= l * lo - g <= t)%R) by (revert H1; unfold Rabs; destruct (Rcase_abs _); lra).
+  assert (H2' : (- t <= l * hi - g <= t)%R) by (revert H2; unfold Rabs; destruct (Rcase_abs _); lra).
+  apply Rabs_le. destruct (Rle_lt_dec 0 l) as [Hl|Hl].
+  - assert (l * lo <= l * L)%R by (apply Rmult_le_compat_l; lra).
+    assert (l * L <= l * hi)%R by (apply Rmult_le_compat_l; lra). lra.
+  - assert (l * L <= l * lo)%R by (apply Rmult_le_compat_neg_l; lra).
+    assert (l * hi <= l * L)%R by (apply Rmult_le_compat_neg_l; lra). lra.
+Qed.
+
+Lemma sumQ_map_R : forall (A : Type) (f : A -> Q) (l : list A), Q2R (sumQ (map f l)) = sumR (map (fun a => Q2R (f a)) l).
+Proof. intros A f l. induction l; simpl; [apply Q2R_0 | rewrite Q2R_plus, IHl; reflexivity]. Qed.
+
+Lemma map_proj : forall (p : T5 -> R) (f : ssx_comp -> Q) (l : list ssx_comp),
+    (forall c, p (ssx_tuple c) = Q2R (f c)) -> map p (map ssx_tuple l) = map (fun a => Q2R (f a)) l.
+Proof. intros p f l H. induction l; simpl; [reflexivity | rewrite H, IHl; reflexivity]. Qed.
+
+Lemma ssx_ok_sound : forall s, ssx_ok s = true -> ssx_valid s.
+Proof.
+  intros [ideal gap a0 a1 cs] H. unfold ssx_ok, ssx_valid, ssx_validR in *. simpl in *.
+  rewrite (map_proj mol xc_moles), (map_proj fr xc_frac) by reflexivity.
+  rewrite <- !sumQ_map_R.
+  boolsplit.
+  repeat split.
+  - rewrite Forall_map. apply Forall_forall. intros c Hc.
+    rewrite forallb_forall in H. specialize (H c Hc). to_R. exact H.
+  - apply Qabs_le_R in H3. q2r_norm. rewrite Q2R_tolFrac in H3. exact H3.
+  - intro Hg. subst gap. rewrite Forall_map. apply Forall_forall. intros c Hc.
+    rewrite forallb_forall in H2. specialize (H2 c Hc). apply Qabs_le_R in H2.
+    q2r_norm. rewrite Q2R_tolFrac in H2. exact H2.
+  - rewrite Forall_map. apply Forall_forall. intros c Hc.
+    rewrite forallb_forall in H1. specialize (H1 c Hc). apply Qabs_le_R in H1.
+    q2r_norm. exact H1.
+  - intro Hi. subst ideal. rewrite Forall_map. apply Forall_forall. intros c Hc.
+    rewrite forallb_forall in H0. specialize (H0 c Hc). apply Qeq_bool_R in H0.
+    rewrite Q2R_0 in H0. exact H0.
+  - intros Hi. subst ideal.
+    destruct cs as [|c0 [|c1 [|c2 r]]]; simpl; try exact I.
+    boolsplit.
+    repeat match goal with Hq : Qabs_le _ _ = true |- _ => apply Qabs_le_R in Hq end.
+    q2r_norm. rewrite Q2R_tolFrac in *.
+    pose proof ln10_between as [HL1 HL2].
+    unfold gugg1, gugg2, ll, fr, ssx_tuple; simpl.
+    assert (E3 : Q2R 3 = 3%R) by (unfold Q2R; simpl; lra).
+    assert (E4 : Q2R 4 = 4%R) by (unfold Q2R; simpl; lra).
+    rewrite E3, E4 in *.
+    split; (eapply affine_between; [split; apply Rlt_le; eassumption | eassumption | eassumption]).
+Qed.
+
 Lemma forallb_Forall : forall (A : Type) (f : A -> bool) (P : A -> Prop),
     (forall a, f a = true -> P a) -> forall l, forallb f l = true -> Forall P l.
 Proof.
@@ -103,12 +172,13 @@ Qed.
 
 Lemma case_ok_sound : forall c, case_ok c = true -> hetero_valid c.
 Proof.
-  intros [pps exs sfs sss] H. unfold case_ok, hetero_valid in *. simpl in *. boolsplit.
+  intros [pps exs sfs sss ssx] H. unfold case_ok, hetero_valid in *. simpl in *. boolsplit.
   repeat split.
   - eapply forallb_Forall; [apply pp_ok_sound | assumption].
   - eapply forallb_Forall; [apply site_ok_sound | assumption].
   - eapply forallb_Forall; [apply site_ok_sound | assumption].
   - eapply forallb_Forall; [apply ss_ok_sound | assumption].
+  - eapply forallb_Forall; [apply ssx_ok_sound | assumption].
 Qed.
 
 (* non-vacuity: a concrete assemblage state accepted by the checker *)
@@ -116,5 +186,6 @@ Example case_ok_example :
   case_ok (CASE [PP KNormal (2#10) (1#100) 0 (158#1000); PP KNormal 0 (1#1000) (12#1000) 0;
                  PP KDissolve 0 (1#100) (97#10000) 0; PP KPrecip 0 (2#100) (2#100) (-(4#10))]
                 [SITE (1#100) (1#100)] [SITE (1#1000) (1000000001#1000000000000)]
-                [SS true [((6#10000), (6#10)); ((4#10000), (4#10))]]) = true.
+                [SS true [((6#10000), (6#10)); ((4#10000), (4#10))]]
+                [SSX true false 0 0 [SSXC (6#10000) (-(2#10)) (6#10) (-(2#10)) 0; SSXC (4#10000) (-(4#10)) (4#10) (-(4#10)) 0]]) = true.
 Proof. vm_compute. reflexivity. Qed.
